@@ -151,7 +151,10 @@ class _Proc(Entity):
                     # `yield delay, NO_EVENTS` with one list object shared by every yield of every process
                     recv = yield (w.delay(s["a"]), w.no_events)
                 else:
-                    recv = yield w.delay(s["a"])
+                    d = w.delay(s["a"])
+                    if w.nest_rng is not None and d == int(d) and w.nest_rng.random() < 0.5:
+                        d = int(d)                      # a bare integer number of seconds
+                    recv = yield d
             elif k == "DE":
                 form = 0 if w.nest_rng is None else w.nest_rng.randrange(3)
                 ev = self.mark(n, s["b"])
@@ -239,7 +242,7 @@ def random_prog(rng):
     res = sorted(([rng.randint(0, 6), rng.randint(1, nf), 0] for _ in range(rng.randint(0, 6))),
                  key=lambda r: r[0])
     for i, r in enumerate(res):
-        r[2] = 10 + i + 1
+        r[2] = 0 if i % 3 == 1 else 10 + i + 1          # falsy payloads are values too
     return {"nf": nf, "start": [rng.randint(0, 3) for _ in range(np_)], "res": res, "comps": comps,
             "script": scripts}
 
